@@ -7,6 +7,7 @@ import (
 	"go/token"
 	"go/types"
 	"sort"
+	"strconv"
 	"strings"
 	"sync"
 
@@ -1089,7 +1090,18 @@ func (ex *Exec) sliceOp(st *State, in *ssa.Slice) Val {
 		if lo != "0" {
 			outside("slicing an array from a non-zero offset")
 		}
-		return Slice{Arr: a.Arr, Len: hi, Elem: a.Elem, B: ex.newBacking()}
+		var lit []Val
+		if n, err := strconv.ParseInt(hi, 10, 64); err == nil && a.Elems != nil {
+			for i := int64(0); i < n; i++ {
+				ev, ok := a.Elems[i]
+				if !ok {
+					lit = nil
+					break
+				}
+				lit = append(lit, ev)
+			}
+		}
+		return Slice{Arr: a.Arr, Len: hi, Elem: a.Elem, B: ex.newBacking(), Lit: lit}
 	case Str:
 		hi := smt.App("slen", x.T)
 		if in.High != nil {
